@@ -97,7 +97,7 @@ def frames_round(ctx, K):
         for rc, out, err, idx in res:
             if rc != 0 or len(out) != len(idx):
                 i = idx[min(len(out), len(idx) - 1)]
-                ctx.violation("variant %s aborted / hung on a VALID frame (%s): %s" % (v, ops[i][:60], err[-500:]), dict(kind="monitor", variant=v, op=ops[i][:400000], stderr=err[-2000:]))
+                ctx.violation("variant %s aborted / hung on a VALID frame (%s): %s" % (v, ops[i][:60], err[-500:]), dict(kind="monitor", variant=v, op=ops[i][:40000000], stderr=err[-2000:]))
                 continue
             for i, o in zip(idx, out):
                 ev += 1
@@ -109,7 +109,7 @@ def frames_round(ctx, K):
                     bad += 1
                     if bad <= 6:
                         ctx.violation("decoding path disagrees with the reference decoder on a valid frame: variant %s, %s, op %s -> %r, reference %r" % (v, desc[i], ops[i].split()[0], o[:80], want[i]),
-                                      dict(kind="monitor", variant=v, op=ops[i][:400000], got=o, reference=want[i]))
+                                      dict(kind="monitor", variant=v, op=ops[i][:40000000], got=o, reference=want[i]))
         per_variant[v] = n_ok
     return dict(ev=ev, per_variant=per_variant, valid_big={bytes(f) for f, _ in valid if len(f) > 16}, sample=dict(op=ops[0][:80], reference=want[0]) if ops else None,
                 synth_valid=len([1 for (f, c), rr in zip(cand, r) if rr.startswith("ok")]), synth_total=len(cand), beyond=len(beyond_window), cf=len(cf), dmeta=len(dmeta),
